@@ -57,7 +57,9 @@ func c02(r *hx.Run) {
 		{[]string{"C", "R01", "R01b/u", "V01/u"}, g6, true},
 		{[]string{"C", "U01", "U10", "U12"}, g6, true}, // U10 re-commits to a consumed commitment: it must be skipped, not block U12
 		{[]string{"C", "R01", "R10", "R12"}, g6, true},
-		{[]string{"C", "U01", "U01b", "U01i"}, g6, true}, // three operations compete for one commitment
+		{[]string{"C", "D0~w", "D0"}, g9, true},             // the earlier competitor is refused by the applier (outside its window): the later one counts
+		{[]string{"C", "Fa(U01)", "U01", "U01b"}, g6, true}, // a competitor with a bad signature does not end the competition
+		{[]string{"C", "U01", "U01b", "U01i"}, g6, true},    // three operations compete for one commitment
 		{[]string{"C", "R01", "R01b", "D0"}, g6, true},
 		{[]string{"C", "U01", "U01b", "U12", "U1b2"}, g4[:4], false},
 	}
